@@ -88,4 +88,13 @@ theorem accepted_log_refines (db : Db) (hdb : WF db) (es : List Entry) (hne : es
       absT db' = (Spec.applyLog (absT db) es).1 :=
   update_refines db hdb es hne (fun e he => ⟨hacc e he, (hidx e he).1, fun li hli => by rw [(hidx e he).2] at hli; cases hli⟩)
 
+
+/-- non-vacuity: a Put with a 3-byte key on an existing table and a transaction with one comparison
+and one operation per branch are accepted, so the theorems above apply to them -/
+example :
+    Api.kvPut [[116]] ⟨[116], ([1, 2, 3] : Bytes).length, (ByteArray.mk #[7]).size⟩ = .ok ∧
+    Api.kvTxn [[116]] (apiTxn [116] [⟨.equal, [97], none, none⟩] [.put [98] (ByteArray.mk #[2]) false]
+      [.del [99] none false false]) = .ok := by
+  decide
+
 end Regatta.Props.C16Compose
